@@ -194,6 +194,25 @@ def pool_proof(work):
         return {"stage": "proof:ArtPoolProof (tlapm)", "result": "prover did not run: %s" % e}
 
 
+def env_proof(work):
+    """TLAPS: CallerUntouched, KeysOwned and QueriesTransparent are invariants of ArtEnv (code as it runs) for ANY keys,
+    buffers, key length and number of operations. Informative, like pool_proof."""
+    t1 = time.time()
+    d = work.path("tlaps-env")
+    os.makedirs(d, exist_ok=True)
+    for f in ("ArtEnv.tla", "ArtEnvProof.tla"):
+        shutil.copy(os.path.join(work.specdir, f), d)
+    label = "proof:ArtEnvProof (tlapm): CallerUntouched, KeysOwned, QueriesTransparent are invariants of ArtEnv for any keys, buffers, lengths, operation counts"
+    try:
+        p = subprocess.run(["tlapm", "--threads", "4", "ArtEnvProof.tla"], cwd=d, capture_output=True, text=True, timeout=600)
+        m = re.search(r"All (\d+) obligations? proved", p.stdout + p.stderr)
+        if m:
+            return {"stage": label, "obligations": int(m.group(1)), "discharged": int(m.group(1)), "wall_s": round(time.time() - t1, 1)}
+        return {"stage": label, "result": "not all obligations proved", "tail": (p.stdout + p.stderr)[-300:]}
+    except Exception as e:
+        return {"stage": label, "result": "prover did not run: %s" % e}
+
+
 def env_model(work):
     cfg = ('CONSTANTS\n Keys = {k1, k2, k3}\n Bufs = {b1, b2}\n KeyLen = 8\n MaxOps = 6\n BufferAppendOnly = FALSE\n AliasCaller = FALSE\n'
            ' WriteTerminator = FALSE\n QueryMemo = "none"\nINIT Init\nNEXT Next\nINVARIANTS CallerUntouched KeysOwned BoundedRetention EmptyRetainsNothing QueriesTransparent\nCHECK_DEADLOCK FALSE\n')
@@ -245,7 +264,7 @@ def check_C12(work, prop, tier, seed, t0):
 
 def check_C13(work, prop, tier, seed, t0):
     q = tier == "quick"
-    model_runs = [env_model(work)]
+    model_runs = [env_model(work), env_proof(work)]
     jobs = []
     kinds = ["alpha/bytes", "collation/bytes/und"] if q else ["alpha/bytes", "collation/bytes/und", "collation/bytes/sv", "collation/bytes/en-num"]
     for k in kinds:
